@@ -223,8 +223,12 @@ func (p *Prog) Func(rel, recv, name string) *ssa.Function {
 		for i := 0; i < ms.Len(); i++ {
 			sel := ms.At(i)
 			if sel.Obj().Name() == name && sel.Obj().Pkg() == tp {
-				// only methods declared on this type (not promoted)
+				// only methods declared on this type (not promoted), with the
+				// receiver kind they were declared with (no synthetic wrapper)
 				if len(sel.Index()) == 1 {
+					if sig, ok := sel.Obj().Type().(*types.Signature); ok && sig.Recv() != nil && !types.Identical(sig.Recv().Type(), t) {
+						continue
+					}
 					return p.SSA.MethodValue(sel)
 				}
 			}
